@@ -184,6 +184,8 @@ let sub_name st = function
   | LCbReturn (_, r, h) -> (match r with CbOk -> ":ok" | CbErr -> ":err" | CbPanic -> ":panic") ^ (if h then ":hold" else ":table")
   | _ -> ""
 let pc_at st a = match aget a st.s_ops with Some p -> pc_name p | None -> "none"
+let n_deferred = ref 0
+let n_scan_pauses = ref 0
 let distinct : (int, unit) Hashtbl.t = Hashtbl.create 4096
 let maxlen = ref 0
 
@@ -212,6 +214,15 @@ let process_trace (id : string) (backend : string) (lines : (char * string) list
      the model made the step when the try ran; the agent's next segment only walks to the next site *)
   let between = ref [] in
   let between_new = ref [] in
+  (* a scan under the global lock (site 5: before each try of a key mutex while the lock is held) takes effect at
+     its end; a step another agent makes in the middle of it belongs before the scan if the model, not having made
+     the scan yet, agrees with what the implementation observed, and after it otherwise (then it saw a key the scan
+     had already locked): [deferred] holds the latter, replayed right after the scan's own step *)
+  let mid_scan = ref false in
+  let tentative = ref None in
+  let deferred = ref [] in
+  let flush_after_obs = ref false in
+  let n_deferred_local = ref 0 in
   (try
     List.iter (fun (tag, rest) ->
       match tag with
@@ -239,9 +250,17 @@ let process_trace (id : string) (backend : string) (lines : (char * string) list
           (match parse_label (split_on ' ' rest) with
            | LSub _ -> raise Exit   (* streams in the middle of a critical section: not compared *)
            | _ -> ());
+          let again = (match !marker, !mid with Some a, Some (a', _) -> a = a' | _ -> false) in
+          if again then begin
+            (* the agent parks again inside the same critical section (next iteration of a scan, or the look-up
+               after it): nothing to compare yet *)
+            if !marker_site = 5 then (mid_scan := true; incr n_scan_pauses);
+            pending_model_obs := Some `Skip
+          end else
           (match !mid with
            | Some (_, Some o) -> pending_model_obs := Some (`Obs o)
            | Some (_, None) ->
+               flush_after_obs := true;
                let toks = split_on ' ' rest in
                (match toks with k :: _ -> bump k | [] -> ());
                let lab = parse_label toks in
@@ -254,7 +273,7 @@ let process_trace (id : string) (backend : string) (lines : (char * string) list
                 | RInvalid -> pending_model_obs := Some `Invalid
                 | RPanic site -> pending_model_obs := Some (`Panic (int_of_nat site)))
            | None -> ());
-          mid := None
+          if not again then mid := None
       | 'l' ->
           incr idx; incr n_labels; incr nl;
           h := Hashtbl.hash (!h, rest);
@@ -264,7 +283,10 @@ let process_trace (id : string) (backend : string) (lines : (char * string) list
           entering := (match !marker, !mid, label_aid lab with
                        | Some a, None, Some x -> int_of_nat x = a | _ -> false);
           if !entering then (match lab with LSub _ -> raise Exit | _ -> ());
+          if !entering && !marker_site = 5 then mid_scan := true;
           if !entering && not (early !marker_site) then pending_model_obs := Some `Late else
+          let st_before = !st in
+          if !mid_scan && not !entering then tentative := Some (st_before, rest) else tentative := None;
           (match step c !st lab with
            | ROk (s', o) ->
                (match label_aid lab with
@@ -278,8 +300,18 @@ let process_trace (id : string) (backend : string) (lines : (char * string) list
           let impl = canon_impl_obs rest in
           let impl_panic = String.length impl >= 5 && String.sub impl 0 5 = "PANIC" in
           let impl_hang = String.length impl >= 4 && String.sub impl 0 4 = "HANG" in
+          let defer () =
+            (match !tentative with
+             | Some (st0, lab) -> st := st0; deferred := (lab, impl) :: !deferred; incr n_deferred_local; incr n_deferred; tentative := None; true
+             | None -> false) in
           (match !pending_model_obs with
            | None -> raise (Bad "o line without l line")
+           | Some `Skip ->
+               if impl <> "-" then begin
+                 result := VMismatch (!idx, "obs", Printf.sprintf "impl=[%s] in the middle of a critical section" impl); raise Exit end
+           | Some `Invalid when defer () -> ()
+           | Some (`Obs o) when not !entering && not (impl_panic || impl_hang) && !tentative <> None
+                                && string_of_obs ~sorted:true o <> impl && defer () -> ()
            | Some `Invalid ->
                result := VMismatch (!idx, "model-invalid", "the model does not allow this label here; impl observed: " ^ impl); raise Exit
            | Some (`Panic site) ->
@@ -303,7 +335,24 @@ let process_trace (id : string) (backend : string) (lines : (char * string) list
                let m = string_of_obs ~sorted:true o in
                if m <> impl then begin
                  result := VMismatch (!idx, "obs", Printf.sprintf "impl=[%s] model=[%s]" impl m); raise Exit end);
-          pending_model_obs := None
+          pending_model_obs := None;
+          tentative := None;
+          if !flush_after_obs then begin
+            flush_after_obs := false; mid_scan := false;
+            List.iter (fun (lab, impl) ->
+              match step c !st (parse_label (split_on ' ' lab)) with
+              | ROk (s', o) ->
+                  let m = string_of_obs ~sorted:true o in
+                  if m <> impl then begin
+                    result := VMismatch (!idx, "obs", Printf.sprintf "[%s] ran in the middle of a scan: impl=[%s], model before the scan disagrees and after the scan says [%s]" lab impl m); raise Exit end;
+                  st := s'
+              | RInvalid ->
+                  result := VMismatch (!idx, "model-invalid", Printf.sprintf "[%s] ran in the middle of a scan (impl observed %s); the model allows it neither before nor after the scan" lab impl); raise Exit
+              | RPanic site ->
+                  result := VMismatch (!idx, "model-panics", Printf.sprintf "[%s] after a scan: model panics at site %d" lab (int_of_nat site)); raise Exit)
+              (List.rev !deferred);
+            deferred := []
+          end
       | 'b' -> between := !between_new @ !between; between_new := []
       | 's' when !marker <> None -> marker := None   (* no snapshot can be taken while the global lock is held *)
       | 's' ->
@@ -422,6 +471,6 @@ let () =
     Printf.printf "HASHES %s\n" (String.concat " " (Hashtbl.fold (fun k () acc -> string_of_int k :: acc) distinct []));
   let kinds_s = String.concat "," (List.sort compare (Hashtbl.fold (fun k v acc -> Printf.sprintf "\"%s\":%d" k v :: acc) kinds [])) in
   let trans_s = String.concat "," (List.sort compare (Hashtbl.fold (fun k v acc -> Printf.sprintf "\"%s\":%d" k v :: acc) trans [])) in
-  Printf.printf "SUMMARY {\"traces\":%d,\"ok\":%d,\"mismatch\":%d,\"labels\":%d,\"obs_compared\":%d,\"snapshots_compared\":%d,\"blocked_sets_compared\":%d,\"distinct_label_sequences\":%d,\"max_labels\":%d,\"label_kinds\":{%s},\"mid_cs_continuations\":%d,\"model_transitions\":{%s}}\n"
-    !n_traces !n_ok !n_mis !n_labels !n_obs !n_snap !n_blk (Hashtbl.length distinct) !maxlen kinds_s !n_fine_cont trans_s;
+  Printf.printf "SUMMARY {\"traces\":%d,\"ok\":%d,\"mismatch\":%d,\"labels\":%d,\"obs_compared\":%d,\"snapshots_compared\":%d,\"blocked_sets_compared\":%d,\"distinct_label_sequences\":%d,\"max_labels\":%d,\"label_kinds\":{%s},\"mid_cs_continuations\":%d,\"scan_pauses\":%d,\"steps_ordered_after_a_scan\":%d,\"model_transitions\":{%s}}\n"
+    !n_traces !n_ok !n_mis !n_labels !n_obs !n_snap !n_blk (Hashtbl.length distinct) !maxlen kinds_s !n_fine_cont !n_scan_pauses !n_deferred trans_s;
   exit (if !n_mis = 0 then 0 else 1)
